@@ -141,6 +141,32 @@ pub struct InputCase {
     pub w: Vec<usize>,
     pub input: String,
     pub toks: Vec<(usize, usize, usize)>,
+    /// a character that is neither whitespace nor part of any token, written at this byte offset in front of token
+    /// number .1 (or behind the last token): the input is no sentence whatever the tokens are
+    pub foreign: Option<(usize, usize)>,
+}
+
+/// Characters no terminal of the generated grammars contains and that are not whitespace (char::is_whitespace / \s).
+pub const FOREIGN: [char; 12] = ['\u{0}', '\u{1}', '\u{8}', '\u{e}', '\u{1b}', '\u{1f}', '\u{7f}', '\u{200b}', '\u{feff}', '§', '\u{ad}', '\u{180e}'];
+
+/// Writes a foreign character directly in front of a token (or directly behind the last one).
+pub fn with_foreign(input: &str, w: &[usize], toks: &[(usize, usize, usize)], rng: &mut crate::rng::Rng, family: u8) -> InputCase {
+    // with block comments in the Layout rule: also a comment that is never closed (the rest of the input is inside it)
+    let c: String = if crate::c14::lang_of(family) == 3 && rng.chance(0.35) { "/* x".to_string() } else { rng.pick(&FOREIGN).to_string() };
+    let j = rng.below(toks.len() + 1);
+    let at = if j < toks.len() { toks[j].1 } else { toks.last().map(|t| t.2).unwrap_or(0) };
+    let mut s = String::with_capacity(input.len() + 5);
+    s.push_str(&input[..at]);
+    s.push_str(&c);
+    // sometimes glued to the next token, sometimes followed by a blank
+    let mut shift = c.len();
+    if rng.chance(0.5) {
+        s.push(' ');
+        shift += 1;
+    }
+    s.push_str(&input[at..]);
+    let toks2 = toks.iter().enumerate().map(|(k, t)| if k >= j { (t.0, t.1 + shift, t.2 + shift) } else { *t }).collect();
+    InputCase { w: w.to_vec(), input: s, toks: toks2, foreign: Some((at, j)) }
 }
 
 pub fn judge_input(p: &Prepared, ic: &InputCase, rep: &mut Rep, prop: &str) {
@@ -155,14 +181,24 @@ pub fn judge_input(p: &Prepared, ic: &InputCase, rep: &mut Rep, prop: &str) {
             return;
         }
     }
-    let member = eacc;
-    let exp_err_pos = match ebad {
-        Some(k) => ic.toks[k].1,
-        None => ic.input.len(),
+    // a foreign character makes a non-sentence of anything; the error sits on it unless a token before it already fails
+    let cnt = if ic.foreign.is_some() { cnt.map(|_| 0) } else { cnt };
+    let member = eacc && ic.foreign.is_none();
+    let exp_err_pos = match (ebad, ic.foreign) {
+        (Some(k), Some((at, j))) if k >= j => at,
+        (None, Some((at, _))) => at,
+        (Some(k), _) => ic.toks[k].1,
+        (None, None) => ic.input.len(),
     };
+    if ic.foreign.is_some() {
+        rep.count("inputs_with_foreign_character", 1);
+    }
+    // An unterminated comment: whether the error belongs to its opening or to the end of input is not settled by the
+    // property (LR reports the former, GLR the latter) - only "is an error" is judged for it.
+    let open_comment = ic.foreign.is_some_and(|(at, _)| ic.input[at..].starts_with("/*") && exp_err_pos == at);
     let agj = p.g.to_json();
     let spans: Vec<Vec<usize>> = ic.toks.iter().map(|t| vec![t.1, t.2]).collect();
-    let case = |extra: Value| json!({"grammar": p.text, "ag": agj, "family": p.family, "input": ic.input, "tokens": ic.w, "spans": spans, "extra": extra});
+    let case = |extra: Value| json!({"grammar": p.text, "ag": agj, "family": p.family, "input": ic.input, "tokens": ic.w, "spans": spans, "foreign": ic.foreign.map(|f| vec![f.0, f.1]), "extra": extra});
     let sig = |kind: &str| format!("{}:{}:{}", kind, fnv(&p.text), fnv(&ic.input));
     rep.count("evaluations", 1);
     crate::rep::watchdog::set(|| json!({"grammar": p.text, "input": ic.input}).to_string());
@@ -196,7 +232,7 @@ pub fn judge_input(p: &Prepared, ic: &InputCase, rep: &mut Rep, prop: &str) {
                 } else if prop == "C12" {
                     rep.count("errors_judged", 1);
                     rep.distinct("nontrivial", fnv(&format!("{}|{:?}|{}", p.text, ebad, "lr")));
-                    let errs = judge_error(&e, &ic.input, exp_err_pos);
+                    let errs = if open_comment { rep.count("unterminated_comment_position_not_judged", 1); vec![] } else { judge_error(&e, &ic.input, exp_err_pos) };
                     if !errs.is_empty() {
                         rep.violation("C12", &sig("lr-errpos"), &format!("LR({}): {}", tname, errs.join("; ")), case(json!({"table": tname, "algo": "LR", "expected_offset": exp_err_pos})));
                     }
@@ -253,7 +289,7 @@ pub fn judge_input(p: &Prepared, ic: &InputCase, rep: &mut Rep, prop: &str) {
                     } else {
                         rep.count("errors_judged", 1);
                         rep.distinct("nontrivial", fnv(&format!("{}|{:?}|{}", p.text, ebad, "glr")));
-                        let errs = judge_error(&e, &ic.input, exp_err_pos);
+                        let errs = if open_comment { rep.count("unterminated_comment_position_not_judged", 1); vec![] } else { judge_error(&e, &ic.input, exp_err_pos) };
                         if !errs.is_empty() {
                             rep.violation("C12", &sig("glr-errpos"), &format!("GLR: {}", errs.join("; ")), case(json!({"algo": "GLR", "expected_offset": exp_err_pos})));
                         }
@@ -561,7 +597,7 @@ pub fn judge_lex_input(p: &Prepared, input: &str, rep: &mut Rep) {
     let lat = lex_lattice(&p.g, input);
     let mut en = Enum::new(&p.g, &lat);
     let cnt = en.count_all();
-    let ic = InputCase { w: vec![], input: input.to_string(), toks: vec![] };
+    let ic = InputCase { w: vec![], input: input.to_string(), toks: vec![], foreign: None };
     let agj = p.g.to_json();
     let case = |extra: Value| json!({"grammar": p.text, "ag": agj, "input": input, "lex": true, "extra": extra});
     let sig = |kind: &str| format!("lex-{}:{}:{}", kind, fnv(&p.text), fnv(input));
@@ -891,7 +927,7 @@ pub fn run_grammar(g: &AG, name: &str, wd: &Workdir, rep: &mut Rep, prop: &str, 
     for (wi, w) in all_strings(g.terms.len(), l).into_iter().enumerate() {
         // every string once with single blanks; a sample again with hostile whitespace
         let (input, toks) = render_plain(g, &w);
-        let ic = InputCase { w: w.clone(), input, toks };
+        let ic = InputCase { w: w.clone(), input, toks, foreign: None };
         let (m, _) = earley(g, &w);
         if m {
             acc += 1
@@ -899,12 +935,18 @@ pub fn run_grammar(g: &AG, name: &str, wd: &Workdir, rep: &mut Rep, prop: &str, 
             rej += 1
         }
         judge_input(&p, &ic, rep, prop);
+        if prop != "C03" && wi % 7 == 3 {
+            judge_input(&p, &with_foreign(&ic.input, &ic.w, &ic.toks, rng, family), rep, prop);
+        }
         if prop == "C03" && m && wi % 3 == 0 {
             judge_into_iter(&p, &ic, rep);
         }
         if (prop == "C12" || prop == "C13" || (family > 0 && prop == "C07")) && rng.chance(if family > 0 { 0.5 } else { 0.25 }) {
             let (input, toks) = hostile(g, &w, rng);
-            judge_input(&p, &InputCase { w, input, toks }, rep, prop);
+            if prop != "C03" && rng.chance(0.15) {
+                judge_input(&p, &with_foreign(&input, &w, &toks, rng, family), rep, prop);
+            }
+            judge_input(&p, &InputCase { w, input, toks, foreign: None }, rep, prop);
         }
     }
     // longer random sentences and mutations of them (many when the alphabet is too large for long exhaustive strings)
@@ -942,7 +984,10 @@ pub fn run_grammar(g: &AG, name: &str, wd: &Workdir, rep: &mut Rep, prop: &str, 
                 } else {
                     rej += 1
                 }
-                judge_input(&p, &InputCase { w: w.clone(), input, toks }, rep, prop);
+                if prop != "C03" && rng.chance(0.3) {
+                    judge_input(&p, &with_foreign(&input, &w, &toks, rng, family), rep, prop);
+                }
+                judge_input(&p, &InputCase { w: w.clone(), input, toks, foreign: None }, rep, prop);
             }
         }
     }
@@ -992,7 +1037,7 @@ pub fn main(a: &Args) {
             lexify(&mut lg, &mut rng);
             run_lex_grammar(&lg, &wd, &mut rep, if a.thorough { 6 } else { 5 }, None, prop);
         }
-        if prop == "C07" && i % 6 == 2 && g.reduced() {
+        if prop == "C07" && i % 6 == 2 && g.reduced() && g.terms.len() <= 5 {
             run_overlap_grammar(&g, &wd, &mut rep, &mut rng, None);
         }
         if !g.reduced() {
@@ -1044,6 +1089,7 @@ fn replay(path: &str, wd: &Workdir, rep: &mut Rep, prop: &str) {
                 pos = at + l.len();
             }
         }
-        judge_input(&p, &InputCase { w, input: input.to_string(), toks }, rep, prop);
+        let foreign = case["foreign"].as_array().map(|f| (f[0].as_u64().unwrap() as usize, f[1].as_u64().unwrap() as usize));
+        judge_input(&p, &InputCase { w, input: input.to_string(), toks, foreign }, rep, prop);
     }
 }
